@@ -1,6 +1,10 @@
 """C09 — git history (store-level part)."""
 import json
-from bodies import Tokens
+import os
+import shutil
+
+from bodies import Tokens, vevent
+from common import scratch_dir
 from storefam import gen_many, run_templates, replay_store
 from httpfam import run_http_templates
 
@@ -20,6 +24,50 @@ def run(chk):
     meta = gen_many(chk, toks, 6 if chk.tier == "quick" else 80, 22, "meta")
     run_templates(chk, meta, toks, PREFIXES, kinds=["bare-mem", "bare-disk", "tree"], label="store-meta")
     run_http_templates(chk, toks, 4 if chk.tier == "quick" else 50, 20, "git", PREFIXES, git_checks=True)
+    failing_ops_probe(chk)
+
+
+def failing_ops_probe(chk):
+    """Requests that fail half-way (an exception after the operation started) must leave the three
+    views — working tree, index, HEAD — in agreement, no lock behind, no commit."""
+    from httpdrv import make_server
+    from storedrv import git_cli_checks
+    import dulwich.repo
+    P = "/user/calendars/calendar/"
+    for fe in ("wsgi", "aiohttp"):
+        root = scratch_dir()
+        srv = make_server(fe, root + "/data", prefix="/")
+        d = root + "/data" + P.rstrip("/")
+        try:
+            steps = [
+                ("PUT", P + "twice.ics", {"Content-Type": "text/calendar"}, vevent("dup-sum", extra="SUMMARY:again")),
+                ("DELETE", P + "twice.ics", {}, b""),                 # describing the item for the commit message fails
+                ("PUT", P + ("n" * 300) + ".ics", {"Content-Type": "text/calendar"}, vevent("long-name")),
+                ("PUT", P + "ok.ics", {"Content-Type": "text/calendar"}, vevent("fine")),
+                ("DELETE", P + "twice.ics", {"If-Match": '"0000000000000000000000000000000000000000"'}, b""),
+            ]
+            for (m, t, h, b) in steps:
+                repo = dulwich.repo.Repo(d)
+                n0 = sum(1 for _ in repo.get_walker())
+                repo.close()
+                r = srv.request(m, t, h, b)
+                repo = dulwich.repo.Repo(d)
+                n1 = sum(1 for _ in repo.get_walker())
+                repo.close()
+                chk.count("failing-ops-probe:%s:%d" % (m, r.status))
+                rep = {"level": "http", "frontend": fe, "request": [m, t, h], "status": r.status}
+                problems = git_cli_checks(d, False)
+                if os.path.exists(os.path.join(d, ".git", "index.lock")):
+                    problems.append("index.lock left behind")
+                if r.status >= 400 and n1 != n0:
+                    problems.append("a request answered %d made %d commit(s)" % (r.status, n1 - n0))
+                for pr in problems:
+                    chk.violation("C09:failed-request-left-a-trace@" + fe,
+                                  f"{fe}: {m} {t[:60]} answered {r.status}; afterwards: {pr}", rep)
+            chk.case(("failing-ops", fe), nontrivial=True)
+        finally:
+            srv.close()
+            shutil.rmtree(root, ignore_errors=True)
 
 
 def replay(chk, path):
